@@ -35,6 +35,8 @@ fn floors(t: Tier) -> Vec<(String, u64)> {
         ("writer.at.refused".into(), 2000),
         ("writer.at.overflowing_offset".into(), 200),
         ("writer.at.last_octet".into(), 200),
+        ("reader.large_buffer".into(), 1000),
+        ("writer.large_buffer".into(), 1000),
     ]
 }
 
@@ -52,24 +54,32 @@ enum ROp {
 }
 
 fn reader_case(ctx: &mut Ctx) {
-    let n = match ctx.rng.below(6) {
-        0 => ctx.rng.below(4) as usize,
+    let miri = ctx.tier == Tier::Miri;
+    let n = match ctx.rng.below(24) {
+        0..=3 => ctx.rng.below(4) as usize,
+        // outside the small envelope: buffers around 2^8, 2^16 and beyond
+        4 if !miri => *ctx.rng.pick(&[255usize, 256, 257, 4096, 65_535, 65_536, 65_537, 70_000, 200_000]),
+        5 if !miri => ctx.rng.range(64, 5000) as usize,
         _ => ctx.rng.range(0, 64) as usize,
     };
+    if n > 64 {
+        ctx.rep.bucket("reader.large_buffer");
+    }
     let data: Box<[u8]> = ctx.rng.bytes(n).into();
     // plan operations against the model, respecting preconditions of the unchecked ones
     let mut ops = Vec::new();
     let mut rem = n;
-    let k = ctx.rng.range(1, 14);
+    let k = if n > 64 || ctx.rng.chance(1, 20) { ctx.rng.range(10, 120) } else { ctx.rng.range(1, 14) };
     for _ in 0..k {
         let op = match ctx.rng.below(12) {
             0 if rem >= 1 => ROp::U8,
             1 if rem >= 2 => ROp::U16,
             2 if rem >= 4 => ROp::U32,
             3 if rem >= 8 => ROp::U64,
-            4 => ROp::Skip(match ctx.rng.below(4) {
+            4 => ROp::Skip(match ctx.rng.below(5) {
                 0 => 0,
                 1 => rem,
+                2 => rem.saturating_sub(ctx.rng.below(9) as usize),
                 _ => ctx.rng.below(rem as u64 + 1) as usize,
             }),
             5 => ROp::Sub(match ctx.rng.below(4) {
@@ -239,9 +249,19 @@ enum WOp {
 }
 
 fn writer_case(ctx: &mut Ctx) {
-    let k = ctx.rng.range(1, 14);
+    let miri = ctx.tier == Tier::Miri;
+    let long = !miri && ctx.rng.chance(1, 16);
+    let k = if long { ctx.rng.range(20, 150) } else { ctx.rng.range(1, 14) };
     let mut model: Vec<u8> = Vec::new();
     let mut w = VecWriter::new();
+    if !miri && ctx.rng.chance(1, 16) {
+        // start from a writer that already holds a lot (offsets beyond 2^16)
+        let n = *ctx.rng.pick(&[255usize, 256, 65_535, 65_536, 65_537, 100_000]);
+        let fill = ctx.rng.bytes(n);
+        w.write_bytes(&fill);
+        model.extend_from_slice(&fill);
+        ctx.rep.bucket("writer.large_buffer");
+    }
     let mut ops_desc = Vec::new();
     let mut nops = 0u64;
     for i in 0..k {
